@@ -59,6 +59,59 @@ Alphabet (every case is a complete configuration; inside it every non-origin gri
              twins) x fixed n = 5 (2-d) / 3 (3-d). Catches parameter / memo state shared through class attributes, module
              caches or default arguments, and constructors that modify the model they are given.
 
+  sizes / ties / depth (both tiers; sub "chain1d" / "copula", round 4) on top of the lattice above:
+             degenerate sizes: DEGENERATE_GRIDS_1D = uniform h = 0.2 with truncation probability 0.5 (the bound falls
+             inside h: the constructor's clamp leaves ONE state per half axis) and the base-class constructor
+             CTMCGrid(h, origin_coordinate, axes) - kind "custom", the constructor every other one ends in - with one
+             state on one half axis and three on the other ([-1,0,1,2,4] h and [-6,-3,-1,0,1] h), k = 0..1, one model per
+             family / activity class (thorough: every model); 2-d: custom [-1,0,1,2,4] h, k = 0..1; end states exactly on
+             user-given bounds (geometric-with-bounds, fixed) and cell edges exactly at +-h/2 are in the lattice already.
+             Deeper levels: fixed n = 3 refined 4, 5 and 6 times (h = 0.1 / 2^6, 129 states; quick: HEM, CGMY 0.5 / 1.2 /
+             1.5, thorough: every quick model); 2-d fixed n = 3 refined 2 and 3 times (17 points per axis).
+             More states than every small-integer threshold: fixed n = 601 (h = 0.002; HEM, VG; thorough: one model per
+             family) and fixed n = 33 001 (h = 2e-5; quick: HEM; thorough as for 601): the complete oracle on every state.
+  copula-large (both tiers) 2-d fixed grids with 513 and 5001 points per axis (index > 255; 2 x 5001 > 10 000 = the
+             threshold under which BinarySearchTreeAdapted pre-computes the states of the axes - the branch of
+             _pre_computation no smaller grid enters). Stated sub-lattice: the states whose index on every axis is one of the
+             first three, the last three or within 2 of the origin (120 states) + every bucket of the tree. Rates against
+             reference rectangle masses (model.mass, tree._compute_probability, inversion for 513 - its constructor
+             enumerates the frontier: > 200 s for 5001), bucket probability x lambda = reference mass of the bucket's
+             rectangle, sum of buckets = intensity = compute_intensity_of_jumps = reference mass outside the central cell.
+  forms1d / formsnd (both tiers, round 4) ARGUMENT FORMS, THE CALLER'S ARGUMENTS, COPIES. Models: BIG_JUMP_PARAMS (jumps of
+             size one, h = 1: the only setting where a Python int is a sensible spatial step; one per family, thorough + the
+             exponential versions) with int forms, VG and CGMY of the quick menu (thorough: one model per family / activity
+             class + twins) at h = 0.1 without; one copula model per tuple of margins (thorough: every copula).
+             (1) every grid constructor in its usual form (which also gets the complete oracle) and in every other legal form
+             of its arguments - _grid_forms_1d: h as int / numpy int / numpy float, number of points as numpy int and even,
+             bounds as int tuple / list / int list / float array / int array / numpy floats, level_a as int / numpy float
+             (n-d: list / tuple / array / numpy floats), truncation probability / minimum probability step as numpy float or
+             left to the default, dimension as numpy int, everything by position instead of keyword; must build and give the
+             same axes, h, origin index, intensity and per-state rates, unrefined and refined once; arrays / lists handed over
+             are compared with a copy taken before (not modified) and then modified by the caller (the grid must not follow);
+             the axis array handed to the base-class constructor is not modified by chain constructors and refine().
+             (2) the calls made on a chain: model.mass(a, b) with floats / numpy floats / 1-tuples / lists / arrays /
+             keywords (n-d: tuples / lists / arrays / numpy floats), probability_to_jump_to_state with int / numpy int64 /
+             int32 / intp (n-d: tuple / list / array / numpy ints), the adapted trees' _compute_probability with numpy floats
+             first and floats second, compute_intensity_of_jumps and create_q_vector by keyword and by position: same
+             answer (1e-12), caller's lists / arrays unchanged.
+             (3) copy.copy, copy.deepcopy and a dill round trip of the grid, of the model and of the chain of every method
+             answer like the original; after the deep / dill copy was advanced (grid refined, model truncated and
+             re-parametrised) the original still answers as before, and the refined copy equals a refined original.
+             In every chain1d / copula / history case: MarkovChainProcess is built by keyword and by position in turn, the
+             caller's grid (axes, h, origin, truncations) and model (_fingerprint_1d: support, density and masses of its
+             measure near and far from the origin, triplet, parameter values) are compared before / after the constructors,
+             after the observations and after the couplings (keys C01:arguments:...:modified-by-...); at the end of every
+             chain1d / copula case the caller truncates and re-parametrises ITS model object (donor values +
+             initialisation()): the rates of the chains built before must not follow (the constructors deep copy).
+  engine-levels (both tiers; sub "history1d" / "historynd") the route of the adaptive multilevel engine (Engine.price): the
+             coupling of level l is copy.deepcopy of the coupling of level l-1 on which next_level is called, the couplings
+             of ALL levels stay in use: after the last level was built the complete oracle runs on the fine_process of every
+             level against a fresh grid refined as often; a deepcopy and a dill round trip (what the pool branch ships to its
+             workers) of every level's coupling must carry the same chain. 1-d: representative models x {uniform h = 0.1,
+             fixed n = 5} (thorough: every coupling grid) x {ALIAS, INVERSION, BINARYSEARCHTREEADAPTED1D} (thorough: all
+             six), 3 levels; 2-d: fixed n = 3 (thorough: + uniform, credit; 3-d), both methods, 2 levels. Also deeper
+             histories on fixed n = 3: one used grid refined 6 times, 5 levels through next_level.
+
 Observation points
   process.intensity_of_jumps (every method); samplingfactory.compute_intensity_of_jumps(process.model, grid) with the
   arguments of model.mass recorded (the blocks whose masses are added); samplingfactory.create_q_vector(measure, grid)
@@ -97,12 +150,26 @@ Oracle (reference cell model computed here from the axes alone)
         wholly outside the bounds has mass 0. (DESIGN section 9 item 20: in the copula chain the truncation does not
         reach `mass`; the cells are inside the box, so the un-truncated joint mass is the right one. Not asserted.)
 
+Outside the alphabet (argument forms): forms the unchanged library rejects - int h for the model-based constructors (uniform,
+geometric, credit: TypeError in compute_truncation_helper, whose int axis defeats the dispatch of middle()), float numbers of
+points, lists as axes of the base-class constructor (number_of_points needs arrays), a list level_a in 1-d, (1, n) arrays for
+mass / probability_to_jump_to_state; 0-d arrays for h (refine() halves the caller's array in place: `self.h /= 2`); int h for
+the probability-step grid (np.insert truncates the new states of the LEFT half axis to integers: duplicated state -h, a
+malformed axis - reported as a finding of round 4, property C13's subject, not judged here); the caller modifying the axis
+arrays it handed to the base-class constructor (the grid keeps a reference, as documented by `self.axes = axes`); a grid refined
+AFTER a chain was built on it and that old chain used again (the inversion sampler and the trees read the grid lazily: the
+couplings always build a new chain); the probability-step grid following the model it was built from (it keeps that model's
+measure for middle(): when the caller re-parametrises the model in place the cells move; the chains' own models must not, and
+are judged); copy.copy of a grid / model followed by refine() / truncation of the copy (shallow copies
+share axes list, origin coordinate and triplet by definition). The empty chain (fixed n = 1: no state, intensity 0).
 Outside the alphabet: the origin state (no rate); the Black-Scholes family (no jumps: no chain rates); parameter objects
 modified WITHOUT initialisation() or modified while a model built on them is in use (the library never does it); grids whose axes are not strictly increasing with 0 at the origin index
 (property C13); credit thresholds not strictly between the left truncation and -h; sampling methods a constructor does not
 accept (BINARYSEARCHTREEADAPTED in 1-d: KeyError; the q-vector methods and BINARYSEARCHTREEADAPTED1D for copulas:
-ValueError / TypeError); h below 0.0125 (= 0.1 / 2^3), dimension > 3, the 3-d joint density; where refine() puts the new
-states (C13); what the samplers do with the rates (C02).
+ValueError / TypeError); h below 0.1 / 2^6 (2e-5 on the largest fixed grid), dimension > 3, the 3-d joint density; where
+refine() puts the new states (C13); what the samplers do with the rates (C02); one-sided measures (no model of the library has
+one: the `left == 0` / `right == 0` branches of create_sampling_method are unreachable); grids built from a
+LevyDrivenSDEModel (C16).
 
 Tolerances. Routes that repeat the same closed-form call: rtol 1e-12 + 1e-15 lambda. Closed form against quadrature of the
 density: rtol 1e-9 + 1e-13 lambda + the quadrature's own error estimate (skipped and counted oracle_inconclusive when that
@@ -131,7 +198,8 @@ PID = "C01"
 LEVEL = "exploration"
 RULE = (
     "complete product model (x construction route: direct, re-initialised, calibration cycle) x grid constructor x "
-    "refinement count (x copula x dimension), histories on one grid object and on one model object, every accepted sampling method "
+    "refinement count (x copula x dimension), degenerate / deep / large sizes, histories on one grid object, on one model object "
+    "and through deep-copied couplings, argument forms x copies of every object, every accepted sampling method "
     "inside each configuration, every non-origin grid state inside each configuration; a case is non-trivial when at least "
     "one state's rate was compared with the density quadrature (1-d), the reference rectangle mass (copula) or the "
     "joint-density quadrature (density); distinct = distinct case dict"
@@ -195,6 +263,24 @@ def cases(tier):
                 if thorough and k > 1 and m.get("via"):
                     continue  # thorough: the re-initialised twins of the large model menu at 0 and 1 refinements only
                 out.append({"sub": "chain1d", "model": m, "grid": dict(g, refine=k)})
+    # degenerate sizes and exact ties: one state on a half axis (through the clamp of the uniform grid when the truncation
+    # bound is closer to the origin than h; through the base-class constructor on one side only), end states exactly on the
+    # bounds the user gave; k = 0..1
+    for k in range(2):
+        for g in DEGENERATE_GRIDS_1D:
+            for m in (direct_models if thorough else rep):
+                out.append({"sub": "chain1d", "model": m, "grid": dict(g, refine=k)})
+    # deeper refinement levels than the lattice above (h down to 0.1 / 2^6) on the cheapest grid, and more states than
+    # every small-integer threshold (> 256: quick and thorough; > 32768: one model in quick, four in thorough)
+    deep_models = rep if thorough else [m for m in rep if m["family"] in ("hem", "cgmy") and not m.get("exp")]
+    for k in (4, 5, 6):
+        for m in deep_models:
+            out.append({"sub": "chain1d", "model": m, "grid": {"kind": "fixed", "h": 0.1, "n": 3, "refine": k}})
+    large_models = [m for m in rep if not m.get("exp") and (m["family"] in ("hem", "vg") or thorough)]
+    for m in large_models:
+        out.append({"sub": "chain1d", "model": m, "grid": {"kind": "fixed", "h": 0.002, "n": 601, "refine": 0}})
+    for m in (large_models if thorough else large_models[:1]):
+        out.append({"sub": "chain1d", "model": m, "grid": {"kind": "fixed", "h": 2e-5, "n": 33001, "refine": 0}})
     for g in grids:
         for m in (quick_twins if thorough else rep_twins):
             if m["via"] == "cycled":  # the calibration route proper, unrefined grids
@@ -212,6 +298,22 @@ def cases(tier):
             for exp in exps:
                 for g in _copula_grids(tier, d):
                     out.append({"sub": "copula", "model": spec, "exp": exp, "grid": dict(g, refine=k)})
+    # deeper refinement levels (fixed n = 3 refined 2 and 3 times: 9 and 17 points per axis) and degenerate sizes (one state
+    # on the left half of every axis, base-class constructor) in 2-d; quick: under the first copula
+    for spec in cm:
+        if len(spec["margins"]) != 2 or (not thorough and spec["copula"] != cm[0]["copula"]):
+            continue
+        for k in (2, 3):
+            out.append({"sub": "copula", "model": spec, "exp": False, "grid": {"kind": "fixed", "h": 0.1, "n": 3, "refine": k}})
+        for k in (0, 1):
+            out.append({"sub": "copula", "model": spec, "exp": False, "grid": {"kind": "custom", "h": 0.1, "mult": [-1, 0, 1, 2, 4], "refine": k}})
+    # more points per axis than the small-integer thresholds (513) and than the threshold below which the adapted tree
+    # pre-computes the states of the axes (2 x 5001 > 10 000): the states of a stated sub-lattice, every bucket
+    for spec in cm:
+        if len(spec["margins"]) != 2 or (not thorough and spec["copula"] != cm[0]["copula"]):
+            continue
+        for n, h in ((513, 0.002), (5001, 0.0002)):
+            out.append({"sub": "copula-large", "model": spec, "grid": {"kind": "fixed", "h": h, "n": n, "refine": 0}})
     # copula models whose margins were all reached through mutate + initialisation(): every tuple of margins, under the
     # first copula of the menu (quick) / every copula (thorough), every grid constructor, unrefined
     seen_margins = set()
@@ -238,6 +340,20 @@ def cases(tier):
         for m in rep_twins:
             for meth in (["ALIAS", "BINARYSEARCHTREEADAPTED1D"] if m["via"] == "reinit" else ["INVERSION"]):
                 out.append({"sub": "history1d", "via": "next_level", "method": meth, "model": m, "grid": dict(g, refine=0), "depth": 2})
+    # the route of the adaptive multilevel engine: the coupling of level l is a DEEP COPY of the coupling of level l-1 on
+    # which next_level is called, the couplings of all levels stay in use; a dill round trip of every level (what the
+    # pool branch of the engines hands to its workers) must carry the same chain
+    for g in (cgrids if thorough else cgrids[:2]):
+        for m in rep:
+            for meth in (METHODS_1D if thorough else ["ALIAS", "INVERSION", "BINARYSEARCHTREEADAPTED1D"]):
+                out.append({"sub": "history1d", "via": "engine-levels", "method": meth, "model": m, "grid": dict(g, refine=0), "depth": 3})
+    # deeper histories on the cheapest grid: 6 refinements of one used grid, 5 levels through next_level
+    for m in deep_models:
+        out.append({"sub": "history1d", "via": "direct", "model": m, "grid": {"kind": "fixed", "h": 0.1, "n": 3, "refine": 0}, "depth": 6})
+    for m in (deep_models if thorough else deep_models[:1]):
+        for meth in ["ALIAS", "INVERSION", "BINARYSEARCHTREEADAPTED1D"]:
+            out.append({"sub": "history1d", "via": "next_level", "method": meth, "model": m,
+                        "grid": {"kind": "fixed", "h": 0.1, "n": 3, "refine": 0}, "depth": 5})
     # histories on ONE model object: used on a narrow grid, a second model of the same class built and used in between, deep
     # copied - then the complete oracle on it against a freshly constructed reference model
     rgrids = [{"kind": "uniform", "h": 0.1, "p": 0.99999}, {"kind": "geometric", "h": 0.1, "n_side": 3, "p": 0.99999}]
@@ -262,6 +378,8 @@ def cases(tier):
                 if d == 3 and not thorough:
                     continue
                 out.append({"sub": "historynd", "via": "next_level", "method": meth, "model": spec, "exp": False, "grid": g, "depth": depth})
+                if g["kind"] == "fixed" or thorough:
+                    out.append({"sub": "historynd", "via": "engine-levels", "method": meth, "model": spec, "exp": False, "grid": g, "depth": depth})
     for spec in cm:
         d = len(spec["margins"])
         for via in ("direct", "reinit"):
@@ -284,7 +402,55 @@ def cases(tier):
                 # one case per row of cells (first coordinate) so that the work is spread evenly
                 for row in range(npts):
                     out.append({"sub": "density", "model": spec, "grid": grid, "row": row})
+    # ---- argument forms, the caller's arguments, copies of every object
+    for fam in ("hem", "merton", "vg", "cgmy"):
+        # jumps of size one: the only models for which a Python int is a sensible spatial step
+        out.append({"sub": "forms1d", "model": {"family": fam, "exp": False, "params": BIG_JUMP_PARAMS[fam]}, "h": 1.0, "ints": True})
+        if thorough:
+            out.append({"sub": "forms1d", "model": {"family": fam, "exp": True, "params": BIG_JUMP_PARAMS[fam], "r": 0.02, "d": 0.0, "spot": 100.0},
+                        "h": 1.0, "ints": True})
+    for m in (rep + rep_twins if thorough else [m for m in rep if m["family"] in ("vg", "cgmy")]):
+        out.append({"sub": "forms1d", "model": m, "h": 0.1, "ints": False})
+    seen_margins = set()
+    for spec in cm:
+        key = tuple(spec["margins"])
+        if not thorough and key in seen_margins:
+            continue
+        seen_margins.add(key)
+        out.append({"sub": "formsnd", "model": spec, "h": 0.1})
     return out
+
+
+# models with jumps of size one (the spatial step of the `forms1d` cases is the int 1 / the float 1.0)
+BIG_JUMP_PARAMS = {
+    "hem": {"sigma": 0.1, "p": 0.4, "eta1": 1.5, "eta2": 1.0, "intensity": 2.0},
+    "merton": {"sigma": 0.1, "sigma_j": 1.0, "mu_j": 0.2, "intensity": 3.0},
+    "vg": {"sigma": 1.0, "nu": 0.5, "theta": -0.3},
+    "cgmy": {"c": 0.5, "g": 1.0, "m": 1.5, "y": 0.7},
+}
+
+# one state on a half axis: the uniform grid when the truncation bound is closer to the origin than h (the constructor then
+# moves the bound out to h), the base-class constructor CTMCGrid(h, origin_coordinate, axes) with one state on one side
+DEGENERATE_GRIDS_1D = [
+    {"kind": "uniform", "h": 0.2, "p": 0.5},
+    {"kind": "custom", "h": 0.1, "mult": [-1, 0, 1, 2, 4]},
+    {"kind": "custom", "h": 0.1, "mult": [-6, -3, -1, 0, 1]},
+]
+
+
+def _make_grid(gspec, model, dimension=1):
+    """A.make_grid, plus the kind "custom": the base-class constructor CTMCGrid(h, origin_coordinate, axes) - the one every
+    other constructor ends in and compute_truncation_helper uses directly - with the states mult[i] * h on every axis"""
+    if gspec["kind"] != "custom":
+        return A.make_grid(gspec, model, dimension)
+    from rpylib.grid import spatial as S
+
+    h = gspec["h"]
+    axis = np.array([float(m) * h for m in gspec["mult"]], dtype=float)
+    g = S.CTMCGrid(h=h, origin_coordinate=gspec["mult"].index(0), axes=[axis] * dimension)
+    for _ in range(gspec.get("refine", 0)):
+        g.refine()
+    return g
 
 
 def _representative_models(models):
@@ -565,6 +731,88 @@ def _close_same(x, y, lam):
 
 
 # ----------------------------------------------------------------------------------------------------------------------
+# the caller's arguments: observable state of a grid / a model object, compared bit for bit before and after a callee ran
+# ----------------------------------------------------------------------------------------------------------------------
+
+def _canon(v):
+    if isinstance(v, (tuple, list)):
+        return [_canon(x) for x in v]
+    try:
+        return float(v).hex()
+    except Exception:  # noqa
+        return str(v)
+
+
+def _safe(f):
+    try:
+        return _canon(f())
+    except Exception as e:  # noqa
+        return "raises-" + type(e).__name__
+
+
+def _grid_snapshot(grid):
+    return {"axes": [[float(x).hex() for x in ax] for ax in grid.axes], "h": float(grid.h).hex(),
+            "origin": [int(c) for c in grid.origin_coordinate],
+            "truncations": _safe(lambda: [tuple(t) for t in grid.truncations])}
+
+
+_PROBE_X = (-100.0, -30.0, -3.0, -1.0, -0.3, -0.05, 0.05, 0.3, 1.0, 3.0, 30.0, 100.0)
+_PROBE_I = ((-INF, -20.0), (-20.0, -2.0), (-2.0, -0.5), (-0.5, -0.02), (0.02, 0.5), (0.5, 2.0), (2.0, 20.0), (20.0, INF))
+
+
+def _fingerprint_1d(model):
+    """what a caller can observe of a 1-d model object: support, density and masses of its measure near and far from the
+    origin (any truncation or re-parametrisation moves some of them), drift, diffusion coefficient and representation of
+    its triplet, the public numbers of its parameter object"""
+    trip = model.levy_triplet
+    out = {"support": _safe(lambda: trip.nu.support()), "a": _safe(lambda: trip.a), "sigma": _safe(lambda: trip.sigma),
+           "representation": _safe(lambda: trip.representation),
+           "density": [_safe(lambda x=x: trip.nu(x)) for x in _PROBE_X],
+           "mass": [_safe(lambda a=a, b=b: model.mass(a, b)) for a, b in _PROBE_I]}
+    params = getattr(getattr(model, "levy_model", model), "parameters", None)
+    if params is not None:
+        try:
+            out["parameters"] = sorted((k, _canon(v)) for k, v in vars(params).items() if isinstance(v, (int, float, np.floating, np.integer)))
+        except TypeError:
+            pass
+    return out
+
+
+def _fingerprint_nd(model):
+    d = len(model.models)
+    return {"margins": [_fingerprint_1d(m) for m in model.models],
+            "mass": [_safe(lambda a=a, b=b: model.mass((a,) * d, (b,) * d)) for a, b in ((0.02, 0.5), (-0.5, -0.02))]}
+
+
+def _differing_fields(a, b):
+    return sorted(k for k in set(a) | set(b) if a.get(k) != b.get(k))
+
+
+def _arguments_untouched(sh, who, tag, grid, grid_before, model_now, model_before):
+    """the callee `who` must leave the caller's grid and model as they were"""
+    sh.count("evaluations", 2)
+    diff = _differing_fields(grid_before, _grid_snapshot(grid))
+    if diff:
+        sh.violation(f"C01:arguments:grid:modified-by-{who}:{tag}",
+                     f"the caller's grid differs after the call in {diff}", {"fields": diff})
+    diff = _differing_fields(model_before, model_now)
+    if diff:
+        sh.violation(f"C01:arguments:model:modified-by-{who}:{tag}",
+                     f"the caller's model differs after the call in {diff} (support / density / masses of its measure, triplet, parameters)",
+                     {"fields": diff, "before": {k: model_before.get(k) for k in diff}, "after": {k: model_now.get(k) for k in diff}})
+
+
+def _reparametrise_callers_model(model, family):
+    """public operations a caller may apply to ITS model object after a chain was built from it: truncate the measure to a
+    tiny interval, move every parameter to the donor values and call initialisation()"""
+    model.truncate_levy_measure(truncations=(-1e-3, 1e-3))
+    params = getattr(model, "levy_model", model).parameters
+    for name, v in A.DONOR_PARAMS[family].items():
+        setattr(params, name, v)
+    params.initialisation()
+
+
+# ----------------------------------------------------------------------------------------------------------------------
 # one-dimensional chains
 # ----------------------------------------------------------------------------------------------------------------------
 
@@ -626,14 +874,58 @@ def _chain1d(sh, case):
     tag = f"{gk}:{fam}"
     model = _make_model(case["model"])
     try:
-        grid = A.make_grid(case["grid"], model, 1)
+        grid = _make_grid(case["grid"], model, 1)
     except A.OutsideAlphabet:
         sh.count("outside-alphabet-grid")
         return
-    _oracle_1d(sh, case, model, grid, tag, ref_model=_reference_model_1d(case["model"], model))
+    keep = {}
+    _oracle_1d(sh, case, model, grid, tag, ref_model=_reference_model_1d(case["model"], model), keep=keep)
+    if keep:
+        _chains_do_not_follow_the_callers_model_1d(sh, case, tag, model, grid, keep)
 
 
-def _oracle_1d(sh, case, model, grid, tag, given=None, given_vectors=None, refine=None, ref_model=None):
+def _chains_do_not_follow_the_callers_model_1d(sh, case, tag, model, grid, keep):
+    """the processes hold their own copy of the model: after the caller truncated and re-parametrised ITS model object (last
+    use of it in this case), the rates of every process built before are what they were"""
+    from rpylib.distribution import samplingfactory as SF
+
+    procs, routes, bounds, idx, o, lam = (keep[k] for k in ("procs", "routes", "bounds", "idx", "origin", "lam"))
+    if "model.mass" not in routes:
+        return
+    try:
+        _reparametrise_callers_model(model, case["model"]["family"])
+    except Exception:  # noqa
+        sh.count("callers-model-not-re-parametrisable")
+        return
+    again = {}
+    try:
+        for meth, p in procs.items():
+            again[f"model.mass:{meth}"] = ({k: float(p.model.mass(bounds[k], bounds[k + 1])) for k in idx}, routes["model.mass"])
+        p0 = next(iter(procs.values()))
+        # the probability-step grid was built FROM the caller's model and keeps its measure (middle() reads it): the routes
+        # that ask the grid for the cells move with the caller's model by construction - only the processes' models are judged
+        lazy_cells = case["grid"]["kind"] != "probability"
+        if "q-vector" in routes and lazy_cells:
+            q = np.asarray(SF.create_q_vector(p0.model.levy_triplet.nu, grid), dtype=float)
+            again["q-vector"] = ({k: float(q[k]) for k in idx}, routes["q-vector"])
+        f = getattr(procs["INVERSION"].sampling, "probability_to_jump_to_state", None) if "INVERSION" in procs else None
+        if f is not None and "inversion" in routes and lazy_cells:
+            lam_i = float(procs["INVERSION"].intensity_of_jumps)
+            again["inversion"] = ({k: float(f(k - o)) * lam_i for k in idx}, routes["inversion"])
+    except Exception as e:  # noqa
+        sh.violation(f"C01:arguments:model:chain-raises-{type(e).__name__}-after-the-callers-model-was-changed:{tag}", f"{e!r}"[:300], None)
+        return
+    for name, (now, before) in again.items():
+        sh.count("evaluations")
+        bad = [k for k in idx if not _close_same(now[k], before[k], lam)]
+        if bad:
+            k = bad[0]
+            sh.violation(f"C01:arguments:model:chain-follows-the-callers-model-changed-afterwards:{name.split(':')[0]}:{tag}",
+                         f"{name}: after the caller truncated and re-parametrised its own model object, {len(bad)} rates of the chain built "
+                         f"before changed (state {k}: {before[k]!r} -> {now[k]!r})", {"route": name, "k": k, "before": before[k], "after": now[k]})
+
+
+def _oracle_1d(sh, case, model, grid, tag, given=None, given_vectors=None, refine=None, ref_model=None, keep=None):
     """the complete per-configuration oracle on `grid` as it is now. given=None: a chain is built on the grid through every
     method of METHODS_1D; given={method: process}: processes the library built itself on that grid object (the
     fine_process of a coupling after next_level) are observed instead, given_vectors the probability vectors recorded
@@ -666,6 +958,10 @@ def _oracle_1d(sh, case, model, grid, tag, given=None, given_vectors=None, refin
         sh.cls(f"route:{case['model']['via']}:{case['model']['family']}")
     sh.cls(f"measure:{_activity_class(nu0)}")
     sh.cls("axis:symmetric" if all(abs(axis[i] + axis[n - 1 - i]) < 1e-15 for i in range(n)) else "axis:asymmetric")
+    if min(o, n - 1 - o) == 1 and max(o, n - 1 - o) > 1:
+        sh.cls("size:one-state-on-one-half-axis")
+    if n > 256:
+        sh.cls("size:more-than-256-states" if n <= 32768 else "size:more-than-32768-states")
 
     # ---- oracle: density quadrature on the reference cells
     quad = {}
@@ -697,10 +993,16 @@ def _oracle_1d(sh, case, model, grid, tag, given=None, given_vectors=None, refin
     # ---- build a process per method
     procs = dict(given or {})
     captured = dict(given_vectors or {})
-    for meth in (METHODS_1D if given is None else []):
+    grid_before = _grid_snapshot(grid)
+    model_before = _fingerprint_1d(model)
+    for j, meth in enumerate(METHODS_1D if given is None else []):
         with _captured(QVEC_METHODS.get(meth)) as cap:
             try:
-                procs[meth] = MarkovChainProcess(model=model, method=SamplingMethod[meth], grid=grid)
+                # argument form: keywords and positions (model, method, grid) in turn
+                if j % 2:
+                    procs[meth] = MarkovChainProcess(model, SamplingMethod[meth], grid)
+                else:
+                    procs[meth] = MarkovChainProcess(model=model, method=SamplingMethod[meth], grid=grid)
             except Exception as e:  # noqa
                 sh.violation(f"C01:chain1d:{meth}:constructor-raises-{type(e).__name__}:{tag}", f"{e!r}"[:300], None)
                 continue
@@ -711,6 +1013,9 @@ def _oracle_1d(sh, case, model, grid, tag, given=None, given_vectors=None, refin
             sh.count("probability-vector-not-observable")
     if not procs:
         return None
+    if given is None:
+        # the constructors deep copy the model and only read the grid: the caller's objects are as they were
+        _arguments_untouched(sh, "a-chain-constructor", tag, grid, grid_before, _fingerprint_1d(model), model_before)
     p0 = next(iter(procs.values()))
     lam = float(p0.intensity_of_jumps)
     if not (math.isfinite(lam) and lam > 0):
@@ -822,6 +1127,12 @@ def _oracle_1d(sh, case, model, grid, tag, given=None, given_vectors=None, refin
                         break
             except Exception as e:  # noqa
                 sh.violation(f"C01:rates:model.mass:raises-{type(e).__name__}:{tag}", f"{meth}: {e!r}"[:300], None)
+
+    if keep is not None:
+        keep.update(procs=procs, routes=routes, bounds=bounds, idx=idx, origin=o, lam=lam)
+    if given is None:
+        # the observations above only read the grid and the processes' own models
+        _arguments_untouched(sh, "an-observation-of-the-rates", tag, grid, grid_before, _fingerprint_1d(model), model_before)
 
     # ---- (ii) (iii) per state, per route
     compared = 0
@@ -950,7 +1261,7 @@ def _oracle_1d(sh, case, model, grid, tag, given=None, given_vectors=None, refin
         return summary
     if int(core.digest(case), 16) % 8 == 0 and "q-vector" in routes:
         model2 = _make_model(case["model"])
-        grid2 = A.make_grid(case["grid"], model2, 1)
+        grid2 = _make_grid(case["grid"], model2, 1)
         meth2 = next(iter(procs))
         p2 = MarkovChainProcess(model=model2, method=SamplingMethod[meth2], grid=grid2)
         q2 = np.asarray(SF.create_q_vector(p2.model.levy_triplet.nu, grid2), dtype=float)
@@ -977,7 +1288,7 @@ class _CopulaCtx:
         spec = case["model"]
         self.d = len(spec["margins"])
         self.model = model if model is not None else _make_copula_model(spec, exp=case.get("exp", False))
-        self.grid = grid if grid is not None else A.make_grid(case["grid"], self.model, self.d)
+        self.grid = grid if grid is not None else _make_grid(case["grid"], self.model, self.d)
         if ref_model is None:
             ref_model = self.model if spec.get("via") is None else A.make_copula_model(_direct(spec), exp=case.get("exp", False))
         self.ref_model = ref_model
@@ -1020,10 +1331,51 @@ def _copula(sh, case):
     except A.OutsideAlphabet:
         sh.count("outside-alphabet-grid")
         return
-    _oracle_nd(sh, case, ctx, tag)
+    keep = {}
+    _oracle_nd(sh, case, ctx, tag, keep=keep)
+    if keep:
+        _chains_do_not_follow_the_callers_model_nd(sh, case, tag, ctx, keep)
 
 
-def _oracle_nd(sh, case, ctx, tag, given=None, refine=None):
+def _chains_do_not_follow_the_callers_model_nd(sh, case, tag, ctx, keep):
+    """the same for the copula chains: the caller truncates its copula model and re-parametrises every margin afterwards"""
+    procs, routes, states, lam = (keep[k] for k in ("procs", "routes", "states", "lam"))
+    if "model.mass" not in routes:
+        return
+    model = ctx.model
+    try:
+        model.truncate_levy_measure(truncations=[(-1e-3, 1e-3)] * ctx.d)
+        for name, m in zip(case["model"]["margins"], model.models):
+            _reparametrise_callers_model(m, A.MARGINS[name]["family"])
+    except Exception:  # noqa
+        sh.count("callers-model-not-re-parametrisable")
+        return
+    # memoised marginal tail integrals (functools cache on a public method) would answer from before the change
+    clear = getattr(getattr(type(model), "marginal_tail_integral", None), "cache_clear", None)
+    if clear is not None:
+        clear()
+    again = {}
+    try:
+        for meth, p in procs.items():
+            again[f"model.mass:{meth}"] = ({idx: float(p.model.mass(*ctx.cell(idx))) for idx in states}, routes["model.mass"])
+        f = getattr(procs["INVERSION"].sampling, "probability_to_jump_to_state", None) if "INVERSION" in procs else None
+        if f is not None and "inversion" in routes:
+            lam_i = float(procs["INVERSION"].intensity_of_jumps)
+            again["inversion"] = ({idx: float(f(tuple(k - o for k, o in zip(idx, ctx.orig)))) * lam_i for idx in states}, routes["inversion"])
+    except Exception as e:  # noqa
+        sh.violation(f"C01:arguments:model:chain-raises-{type(e).__name__}-after-the-callers-model-was-changed:{tag}", f"{e!r}"[:300], None)
+        return
+    for name, (now, before) in again.items():
+        sh.count("evaluations")
+        bad = [idx for idx in states if not core.close(now[idx], before[idx], rtol=1e-12, atol=1e-15 * lam)]
+        if bad:
+            idx = bad[0]
+            sh.violation(f"C01:arguments:model:chain-follows-the-callers-model-changed-afterwards:{name.split(':')[0]}:{tag}",
+                         f"{name}: after the caller truncated its copula model and re-parametrised the margins, {len(bad)} rates of the chain "
+                         f"built before changed (state {idx}: {before[idx]!r} -> {now[idx]!r})", {"route": name, "state": idx})
+
+
+def _oracle_nd(sh, case, ctx, tag, given=None, refine=None, keep=None):
     """the complete per-configuration oracle on ctx.grid as it is now (see _oracle_1d for `given`); returns a summary"""
     from rpylib.distribution import samplingfactory as SF
     from rpylib.distribution.sampling import SamplingMethod
@@ -1081,15 +1433,23 @@ def _oracle_nd(sh, case, ctx, tag, given=None, refine=None):
 
     # ---- processes
     procs = dict(given or {})
+    grid_before = _grid_snapshot(grid)
+    model_before = _fingerprint_nd(model)
     with _no_vol_adjustment_pool():
-        for meth in (METHODS_ND if given is None else []):
+        for j, meth in enumerate(METHODS_ND if given is None else []):
             try:
-                procs[meth] = MarkovChainLevyCopula(levy_copula_model=model, grid=grid, method=SamplingMethod[meth])
+                # argument form: keywords and positions (levy_copula_model, grid, method) in turn
+                if j % 2:
+                    procs[meth] = MarkovChainLevyCopula(model, grid, SamplingMethod[meth])
+                else:
+                    procs[meth] = MarkovChainLevyCopula(levy_copula_model=model, grid=grid, method=SamplingMethod[meth])
                 sh.cls(f"method:{d}d:{meth}")
             except Exception as e:  # noqa
                 sh.violation(f"C01:copula:{meth}:constructor-raises-{type(e).__name__}:{tag}", f"{e!r}"[:300], None)
     if not procs:
         return
+    if given is None:
+        _arguments_untouched(sh, "a-chain-constructor", tag, grid, grid_before, _fingerprint_nd(model), model_before)
     p0 = next(iter(procs.values()))
     lam = float(p0.intensity_of_jumps)
     if not (math.isfinite(lam) and lam > 0):
@@ -1194,6 +1554,11 @@ def _oracle_nd(sh, case, ctx, tag, given=None, refine=None):
             if bad or extra:
                 sh.violation(f"C01:tiling:adapted-tree:buckets-do-not-partition-the-non-origin-states:{tag}",
                              f"{len(bad)} states not in exactly one bucket (first {bad[:3]}), {len(extra)} bucket members that are not non-origin states (first {extra[:3]})", None)
+
+    if keep is not None:
+        keep.update(procs=procs, routes=routes, states=states, lam=lam)
+    if given is None:
+        _arguments_untouched(sh, "an-observation-of-the-rates", tag, grid, grid_before, _fingerprint_nd(model), model_before)
 
     # ---- (ii) (iii) per state, per route
     compared = 0
@@ -1348,11 +1713,13 @@ def _history1d(sh, case):
     ref_model = _reference_model_1d(case["model"], model)
     g0 = dict(case["grid"], refine=0)
     try:
-        grid = A.make_grid(g0, model, 1)
+        grid = _make_grid(g0, model, 1)
     except A.OutsideAlphabet:
         sh.count("outside-alphabet-grid")
         return
     sh.cls(f"history:1d:{via}")
+    if case["grid"]["kind"] == "fixed" and depth > 3:
+        sh.cls(f"history:1d:{via}:deep")
     if via == "direct":
         tag = f"{gk}:{fam}:used-grid-refined"
         for level in range(depth + 1):
@@ -1362,7 +1729,7 @@ def _history1d(sh, case):
             reused = _oracle_1d(sh, case, model, grid, tag if level else f"{gk}:{fam}", refine=level, ref_model=ref_model)
             if level:
                 fresh_model = _make_model(case["model"])
-                fresh_grid = A.make_grid(dict(g0, refine=level), fresh_model, 1)
+                fresh_grid = _make_grid(dict(g0, refine=level), fresh_model, 1)
                 fresh = _light_summary_1d(fresh_model, fresh_grid)
                 _compare_with_fresh(sh, tag, level, reused, fresh)
             # a deep copy of the used grid is the same grid
@@ -1372,7 +1739,7 @@ def _history1d(sh, case):
                                    reused)
             # a second grid of the same class with another h, used, refined, used again in between
             try:
-                other = A.make_grid(dict(g0, h=0.75 * g0["h"]), model, 1)
+                other = _make_grid(dict(g0, h=0.75 * g0["h"]), model, 1)
                 _light_summary_1d(model, other)
                 other.refine()
                 _light_summary_1d(model, other)
@@ -1382,8 +1749,47 @@ def _history1d(sh, case):
         return
     # through the real coupling: fine_process at level l is a chain built by next_level on the refined grid object
     meth = case["method"]
-    tag = f"{gk}:{fam}:next_level:{meth}"
     product = _make_product()
+    model_before = _fingerprint_1d(model)
+    if via == "engine-levels":
+        # what MLMC Engine.price does: level l = deep copy of level l-1, then next_level; every level stays in use
+        tag = f"{gk}:{fam}:engine-levels:{meth}"
+        levels = []
+        with _captured(QVEC_METHODS.get(meth)) as cap:
+            try:
+                cp = CouplingMarkovChain(model=model, method=SamplingMethod[meth], grid=grid)
+                product.update(cp.fine_process.process_representation)
+                cp.initialisation(product)
+                pms = [_path_manager(cp.fine_process)]
+                levels.append((cp, cap.vec if cap is not None else None))
+                for level in range(1, depth + 1):
+                    if cap is not None:
+                        cap.vec = None
+                    nxt = copy.deepcopy(levels[-1][0])
+                    nxt.next_level(mc_paths=1, path_managers=pms, product=product)
+                    levels.append((nxt, cap.vec if cap is not None else None))
+            except Exception as e:  # noqa
+                sh.violation(f"C01:history:CouplingMarkovChain:deepcopy-then-next_level-raises-{type(e).__name__}:{tag}", f"{e!r}"[:300], None)
+                return
+        for level, (cpl, vec) in enumerate(levels):
+            vecs = {meth: vec} if vec is not None else {}
+            reused = _oracle_1d(sh, case, model, cpl.grid, tag if level else f"{gk}:{fam}", given={meth: cpl.fine_process},
+                                given_vectors=vecs, refine=level, ref_model=ref_model)
+            fresh_model = _make_model(case["model"])
+            _compare_with_fresh(sh, tag, level, reused, _light_summary_1d(fresh_model, _make_grid(dict(g0, refine=level), fresh_model, 1)))
+            if reused is None:
+                continue
+            for cname, cpf in _copiers()[1:]:
+                try:
+                    twin = cpf(cpl)
+                    _compare_summaries(sh, f"C01:history:coupling:{cname}-of-a-level-carries-another-chain:{tag}",
+                                       f"{cname} of the coupling of level {level}", _proc_summary_1d(twin.fine_process), _proc_summary_1d(cpl.fine_process))
+                except Exception as e:  # noqa
+                    sh.violation(f"C01:history:coupling:{cname}-raises-{type(e).__name__}:{tag}", f"level {level}: {e!r}"[:300], None)
+        _arguments_untouched(sh, "the-couplings", tag, levels[0][0].grid, _grid_snapshot(levels[0][0].grid), _fingerprint_1d(model), model_before)
+        sh.count("histories")
+        return
+    tag = f"{gk}:{fam}:next_level:{meth}"
     with _captured(QVEC_METHODS.get(meth)) as cap:
         try:
             cp = CouplingMarkovChain(model=model, method=SamplingMethod[meth], grid=grid)
@@ -1405,8 +1811,13 @@ def _history1d(sh, case):
             reused = _oracle_1d(sh, case, model, cp.grid, tag, given={meth: cp.fine_process}, given_vectors=vecs, refine=level,
                                 ref_model=ref_model)
             fresh_model = _make_model(case["model"])
-            fresh_grid = A.make_grid(dict(g0, refine=level), fresh_model, 1)
+            fresh_grid = _make_grid(dict(g0, refine=level), fresh_model, 1)
             _compare_with_fresh(sh, tag, level, reused, _light_summary_1d(fresh_model, fresh_grid))
+    # the coupling deep copies what it needs: the model the caller handed over is as it was
+    sh.count("evaluations")
+    diff = _differing_fields(model_before, _fingerprint_1d(model))
+    if diff:
+        sh.violation(f"C01:arguments:model:modified-by-the-coupling:{tag}", f"the caller's model differs after {depth} levels in {diff}", {"fields": diff})
     sh.count("histories")
 
 
@@ -1461,7 +1872,7 @@ def _history_model_reuse_1d(sh, case):
             donor = _make_model(dsp)
             for gs in ({"kind": "fixed", "h": 0.1, "n": 3}, g0):
                 try:
-                    dgrid = A.make_grid(gs, donor, 1)
+                    dgrid = _make_grid(gs, donor, 1)
                 except A.OutsideAlphabet:
                     continue
                 for level in range(2):
@@ -1472,7 +1883,7 @@ def _history_model_reuse_1d(sh, case):
 
     try:
         use_a_second_model()
-        before = _light_summary_1d(model, A.make_grid(g0, model, 1))
+        before = _light_summary_1d(model, _make_grid(g0, model, 1))
     except A.OutsideAlphabet:
         sh.count("outside-alphabet-grid")
         return
@@ -1480,14 +1891,14 @@ def _history_model_reuse_1d(sh, case):
         sh.violation(f"C01:history:model:operation-raises-{type(e).__name__}:{tag}", f"{e!r}"[:300], None)
         return
     try:
-        narrow = A.make_grid({"kind": "fixed", "h": 0.1, "n": 3}, model, 1)
+        narrow = _make_grid({"kind": "fixed", "h": 0.1, "n": 3}, model, 1)
         for meth in METHODS_1D:
             MarkovChainProcess(model=model, method=SamplingMethod[meth], grid=narrow)
         use_a_second_model()
         clone = copy.deepcopy(model)
-        grid = A.make_grid(g0, model, 1)
-        after = _light_summary_1d(model, A.make_grid(g0, model, 1))
-        cloned = _light_summary_1d(clone, A.make_grid(g0, clone, 1))
+        grid = _make_grid(g0, model, 1)
+        after = _light_summary_1d(model, _make_grid(g0, model, 1))
+        cloned = _light_summary_1d(clone, _make_grid(g0, clone, 1))
     except Exception as e:  # noqa
         sh.violation(f"C01:history:model:operation-raises-{type(e).__name__}:{tag}", f"{e!r}"[:300], None)
         return
@@ -1517,7 +1928,7 @@ def _history_model_reuse_nd(sh, case):
     sh.cls(f"history:{d}d:model-reuse")
 
     def light(m):
-        ctx = _CopulaCtx(sh, case, model=m, grid=A.make_grid(case["grid"], m, d), ref_model=m)
+        ctx = _CopulaCtx(sh, case, model=m, grid=_make_grid(case["grid"], m, d), ref_model=m)
         if not ctx.ok:
             return None
         p = MarkovChainLevyCopula(levy_copula_model=m, grid=ctx.grid, method=SamplingMethod.INVERSION)
@@ -1531,7 +1942,7 @@ def _history_model_reuse_nd(sh, case):
             osp = {"margins": list(reversed(spec["margins"])), "copula": other_copula}
             other = _make_copula_model(dict(osp, via=via) if via else osp, exp=exp)
             for gs in ({"kind": "fixed", "h": 0.1, "n": 3}, case["grid"]):
-                ogrid = A.make_grid(gs, other, d)
+                ogrid = _make_grid(gs, other, d)
                 for meth in METHODS_ND:
                     MarkovChainLevyCopula(levy_copula_model=other, grid=ogrid, method=SamplingMethod[meth])
 
@@ -1539,14 +1950,14 @@ def _history_model_reuse_nd(sh, case):
         try:
             use_a_second_model()
             before = light(model)
-            narrow = A.make_grid({"kind": "fixed", "h": 0.1, "n": 3}, model, d)
+            narrow = _make_grid({"kind": "fixed", "h": 0.1, "n": 3}, model, d)
             for meth in METHODS_ND:
                 MarkovChainLevyCopula(levy_copula_model=model, grid=narrow, method=SamplingMethod[meth])
             use_a_second_model()
             clone = copy.deepcopy(model)
             after = light(model)
             cloned = light(clone)
-            grid = A.make_grid(case["grid"], model, d)
+            grid = _make_grid(case["grid"], model, d)
         except A.OutsideAlphabet:
             sh.count("outside-alphabet-grid")
             return
@@ -1601,7 +2012,7 @@ def _historynd(sh, case):
     model = _make_copula_model(case["model"], exp=case.get("exp", False))
     g0 = dict(case["grid"], refine=0)
     try:
-        grid = A.make_grid(g0, model, d)
+        grid = _make_grid(g0, model, d)
     except A.OutsideAlphabet:
         sh.count("outside-alphabet-grid")
         return
@@ -1619,8 +2030,44 @@ def _historynd(sh, case):
         sh.count("histories")
         return
     meth = case["method"]
-    tag = f"{base}:next_level:{meth}"
     product = _make_product()
+    model_before = _fingerprint_nd(model)
+    if via == "engine-levels":
+        import copy
+
+        tag = f"{base}:engine-levels:{meth}"
+        levels = []
+        with _no_vol_adjustment_pool():
+            try:
+                cp = CouplingProcessLevyCopula(levy_copula_model=model, grid=grid, method=SamplingMethod[meth])
+                product.update(cp.fine_process.process_representation)
+                cp.initialisation(product)
+                pms = [_path_manager(cp.fine_process)]
+                levels.append(cp)
+                for level in range(1, depth + 1):
+                    nxt = copy.deepcopy(levels[-1])
+                    nxt.next_level(mc_paths=1, path_managers=pms, product=product)
+                    levels.append(nxt)
+            except Exception as e:  # noqa
+                sh.violation(f"C01:history:CouplingProcessLevyCopula:deepcopy-then-next_level-raises-{type(e).__name__}:{tag}", f"{e!r}"[:300], None)
+                return
+            for level, cpl in enumerate(levels):
+                ctx = _CopulaCtx(sh, case, model=model, grid=cpl.grid)
+                reused = _oracle_nd(sh, case, ctx, tag if level else base, given={meth: cpl.fine_process}, refine=level)
+                _compare_with_fresh(sh, tag, level, reused, _light_summary_nd(sh, case, level))
+                if reused is None:
+                    continue
+                for cname, cpf in _copiers()[1:]:
+                    try:
+                        twin = cpf(cpl)
+                        _compare_summaries(sh, f"C01:history:coupling:{cname}-of-a-level-carries-another-chain:{tag}", f"{cname} of the coupling of level {level}",
+                                           _proc_summary_nd(sh, case, twin.fine_process), _proc_summary_nd(sh, case, cpl.fine_process))
+                    except Exception as e:  # noqa
+                        sh.violation(f"C01:history:coupling:{cname}-raises-{type(e).__name__}:{tag}", f"level {level}: {e!r}"[:300], None)
+        _arguments_untouched(sh, "the-couplings", tag, levels[0].grid, _grid_snapshot(levels[0].grid), _fingerprint_nd(model), model_before)
+        sh.count("histories")
+        return
+    tag = f"{base}:next_level:{meth}"
     with _no_vol_adjustment_pool():
         try:
             cp = CouplingProcessLevyCopula(levy_copula_model=model, grid=grid, method=SamplingMethod[meth])
@@ -1639,6 +2086,10 @@ def _historynd(sh, case):
             ctx = _CopulaCtx(sh, case, model=model, grid=cp.grid)
             reused = _oracle_nd(sh, case, ctx, tag, given={meth: cp.fine_process}, refine=level)
             _compare_with_fresh(sh, tag, level, reused, _light_summary_nd(sh, case, level))
+    sh.count("evaluations")
+    diff = _differing_fields(model_before, _fingerprint_nd(model))
+    if diff:
+        sh.violation(f"C01:arguments:model:modified-by-the-coupling:{tag}", f"the caller's copula model differs after {depth} levels in {diff}", {"fields": diff})
     sh.count("histories")
 
 
@@ -1737,6 +2188,654 @@ def _density(sh, case):
 
 
 # ----------------------------------------------------------------------------------------------------------------------
+# argument forms, the caller's arguments, copies of every object under test
+# ----------------------------------------------------------------------------------------------------------------------
+
+def _dill_round_trip(x):
+    import dill
+
+    return dill.loads(dill.dumps(x))
+
+
+def _copiers():
+    import copy
+
+    out = [("copy", copy.copy), ("deepcopy", copy.deepcopy)]
+    try:
+        import dill  # noqa
+
+        out.append(("dill", _dill_round_trip))
+    except ImportError:
+        pass
+    return out
+
+
+def _proc_summary_1d(p):
+    """what a 1-d chain says about its rates, read from the process alone (its own grid, its own model)"""
+    from rpylib.distribution import samplingfactory as SF
+
+    grid = p.grid
+    o = int(grid.origin_coordinate.value)
+    q = np.asarray(SF.create_q_vector(p.model.levy_triplet.nu, grid), dtype=float)
+    n = len(q)
+    out = {"axis": [float(x).hex() for x in grid.axes[0]], "h": float(grid.h).hex(), "origin": o,
+           "intensity": float(p.intensity_of_jumps), "q": [float(q[k]) for k in range(n) if k != o]}
+    f = getattr(p.sampling, "probability_to_jump_to_state", None)
+    if f is not None:
+        out["mass"] = [float(f(k - o)) * out["intensity"] for k in range(n) if k != o]
+    return out
+
+
+def _forms_compare(sh, key, what, thunk, base, summarise):
+    """run one argument form; it must build (the unchanged library accepts every form of the menus) and answer like the usual
+    form. Returns what the thunk returned, or None."""
+    try:
+        got = thunk()
+    except A.OutsideAlphabet:
+        sh.count("outside-alphabet-grid")
+        return None
+    except Exception as e:  # noqa
+        sh.violation(f"{key}:raises-{type(e).__name__}", f"{what}: {e!r}"[:300], None)
+        return None
+    try:
+        _compare_summaries(sh, f"{key}:differs-from-the-usual-form", what, summarise(got), base)
+    except Exception as e:  # noqa
+        sh.violation(f"{key}:chain-raises-{type(e).__name__}", f"{what}: {e!r}"[:300], None)
+        return None
+    sh.count("argument-forms")
+    return got
+
+
+def _holders_untouched(sh, key, what, holders, grid):
+    """holders: [(mutable argument object, copy taken before the call)]: the constructor must not modify them, and the grid
+    must not change when the caller modifies them afterwards"""
+    snap = _grid_snapshot(grid)
+    for obj, before in holders:
+        sh.count("evaluations")
+        same = (np.array_equal(np.asarray(obj), np.asarray(before)) and type(obj) is type(before)
+                and getattr(obj, "dtype", None) == getattr(before, "dtype", None))
+        if not same:
+            sh.violation(f"{key}:modifies-the-callers-argument", f"{what}: argument {before!r} is {obj!r} after the call", None)
+        try:
+            if isinstance(obj, np.ndarray):
+                obj *= 3
+            elif isinstance(obj, list):
+                for i in range(len(obj)):
+                    obj[i] = obj[i] * 3
+        except Exception:  # noqa
+            continue
+    sh.count("evaluations")
+    diff = _differing_fields(snap, _grid_snapshot(grid))
+    if diff:
+        sh.violation(f"{key}:grid-follows-the-callers-argument-changed-afterwards", f"{what}: {diff} of the grid changed when the caller "
+                     f"modified the array / list it had passed", {"fields": diff})
+
+
+def _grid_forms_1d(model, H, ints):
+    """{kind: (usual form, [(label, form)])}; a form returns the grid or (grid, holders). Every form below is accepted by the
+    unchanged library and describes the same grid as the usual form. Not in the menu (rejected by the unchanged library, or
+    not the same input): int h for the model-based constructors (TypeError in compute_truncation_helper), int h for the
+    probability-step grid (its left half axis is truncated to integers by np.insert: reported, C13's subject), float numbers
+    of points, lists for the axes of the base-class constructor (number_of_points needs arrays), 0-d arrays for h (refine()
+    halves them in place)."""
+    from rpylib.grid import spatial as S
+
+    f64, i64 = np.float64, np.int64
+    B = (-8.0 * H, 5.0 * H)
+    l, r = S.compute_truncation(model=model, h=H)
+    a = 0.5 * l
+    if ints and l < math.ceil(a) < -H:
+        a = float(math.ceil(a))
+    mult = (-3.0, -1.0, 0.0, 1.0, 2.0, 4.0)
+
+    def fixed(h=H, n=5, **kw):
+        return S.CTMCUniformGrid.create_from_fixed_nb_of_points(h=h, nb_of_points=n, **kw)
+
+    def gb(h=H, t=B, n=3, d=1):
+        g = S.CTMCGridGeometric.create_with_bounds(h=h, truncations=t, dimension=d, nb_of_points_on_each_side=n)
+        return (g, [(t, t.copy())]) if isinstance(t, (list, np.ndarray)) else g
+
+    def custom(h=H, o=2, positional=False):
+        ax = np.array([m * H for m in mult])
+        g = S.CTMCGrid(h, o, [ax]) if positional else S.CTMCGrid(h=h, origin_coordinate=o, axes=[ax])
+        return g
+
+    menu = {
+        "fixed": (lambda: fixed(), [
+            ("h:numpy-float", lambda: fixed(h=f64(H))), ("n:numpy-int", lambda: fixed(n=i64(5))), ("n:even", lambda: fixed(n=4)),
+            ("positional", lambda: S.CTMCUniformGrid.create_from_fixed_nb_of_points(H, 5)),
+            ("positional-with-dimension", lambda: S.CTMCUniformGrid.create_from_fixed_nb_of_points(H, 5, 1)),
+            ("dimension:numpy-int", lambda: fixed(dimension=i64(1)))]
+            + ([("h:int", lambda: fixed(h=int(H))), ("h:numpy-int", lambda: fixed(h=i64(H)))] if ints else [])),
+        "geometric-bounds": (lambda: gb(), [
+            ("h:numpy-float", lambda: gb(h=f64(H))), ("bounds:list", lambda: gb(t=list(B))), ("bounds:float-array", lambda: gb(t=np.array(B))),
+            ("bounds:numpy-floats", lambda: gb(t=(f64(B[0]), f64(B[1])))), ("n:numpy-int", lambda: gb(n=i64(3))),
+            ("dimension:numpy-int", lambda: gb(d=i64(1))),
+            ("positional", lambda: S.CTMCGridGeometric.create_with_bounds(H, B, 1, 3))]
+            + ([("h:int", lambda: gb(h=int(H))), ("bounds:ints", lambda: gb(t=(int(B[0]), int(B[1])))),
+                ("bounds:int-list", lambda: gb(t=[int(B[0]), int(B[1])])), ("bounds:int-array", lambda: gb(t=np.array([int(B[0]), int(B[1])]))),
+                ("h:int+bounds:ints", lambda: gb(h=int(H), t=(int(B[0]), int(B[1]))))] if ints else [])),
+        "uniform": (lambda: S.CTMCUniformGrid(h=H, model=model, truncation_probability=0.99999), [
+            ("h:numpy-float", lambda: S.CTMCUniformGrid(h=f64(H), model=model, truncation_probability=0.99999)),
+            ("p:numpy-float", lambda: S.CTMCUniformGrid(h=H, model=model, truncation_probability=f64(0.99999))),
+            ("p:default", lambda: S.CTMCUniformGrid(h=H, model=model)),
+            ("positional", lambda: S.CTMCUniformGrid(H, model, 0.99999))]),
+        "geometric": (lambda: S.CTMCGridGeometric(h=H, model=model, nb_of_points_on_each_side=3, truncation_probability=0.99999), [
+            ("h:numpy-float", lambda: S.CTMCGridGeometric(h=f64(H), model=model, nb_of_points_on_each_side=3, truncation_probability=0.99999)),
+            ("n:numpy-int", lambda: S.CTMCGridGeometric(h=H, model=model, nb_of_points_on_each_side=i64(3), truncation_probability=0.99999)),
+            ("p:default", lambda: S.CTMCGridGeometric(h=H, model=model, nb_of_points_on_each_side=3)),
+            ("positional", lambda: S.CTMCGridGeometric(H, model, 3, 0.99999))]),
+        "probability": (lambda: S.CTMCGridProbabilityStep(h=H, model=model, minimum_probability_step=0.2, dimension=1), [
+            ("h:numpy-float", lambda: S.CTMCGridProbabilityStep(h=f64(H), model=model, minimum_probability_step=0.2, dimension=1)),
+            ("pmin:numpy-float", lambda: S.CTMCGridProbabilityStep(h=H, model=model, minimum_probability_step=f64(0.2), dimension=1)),
+            ("dimension:default", lambda: S.CTMCGridProbabilityStep(h=H, model=model, minimum_probability_step=0.2)),
+            ("positional", lambda: S.CTMCGridProbabilityStep(H, model, 0.2, 1))]),
+        "custom": (lambda: custom(), [
+            ("h:numpy-float", lambda: custom(h=f64(H))), ("origin:numpy-int", lambda: custom(o=i64(2))),
+            ("positional", lambda: custom(positional=True))] + ([("h:int", lambda: custom(h=int(H)))] if ints else [])),
+    }
+    if l < a < -H:
+        menu["credit"] = (lambda: S.CTMCCredit(h=H, level_a=a, model=model, symmetric_grid=True), [
+            ("h:numpy-float", lambda: S.CTMCCredit(h=f64(H), level_a=a, model=model, symmetric_grid=True)),
+            ("level:numpy-float", lambda: S.CTMCCredit(h=H, level_a=f64(a), model=model, symmetric_grid=True)),
+            ("symmetric:default", lambda: S.CTMCCredit(h=H, level_a=a, model=model)),
+            ("positional", lambda: S.CTMCCredit(H, a, model, True))]
+            + ([("level:int", lambda: S.CTMCCredit(h=H, level_a=int(a), model=model, symmetric_grid=True))] if ints and a == int(a) else []))
+    return menu
+
+
+def _forms1d(sh, case):
+    from rpylib.distribution import samplingfactory as SF
+    from rpylib.distribution.sampling import SamplingMethod
+    from rpylib.process.markovchain.markovchain import MarkovChainProcess
+
+    spec = case["model"]
+    H, ints = case["h"], case["ints"]
+    fam = _family_class(spec) + (":big-jumps" if ints else "")
+    model = _make_model(spec)
+    ref_model = _reference_model_1d(spec, model)
+    sh.cls("forms:1d")
+    model_before = _fingerprint_1d(model)
+
+    def light(g):
+        g = g[0] if isinstance(g, tuple) else g
+        a = _light_summary_1d(model, g)
+        g.refine()
+        b = _light_summary_1d(model, g)
+        return {"axis": a["axis"] + b["axis"], "h": a["h"] + b["h"], "origin": (a["origin"], b["origin"]),
+                "intensity": a["intensity"], "q": a["q"] + b["q"]}
+
+    # ---- (1) forms of the arguments of the grid constructors; the usual form also gets the complete oracle
+    usual_grids = {}
+    for kind, (usual, forms) in _grid_forms_1d(model, H, ints).items():
+        key = f"C01:forms:grid-constructor:{kind}"
+        try:
+            g = usual()
+            g = g[0] if isinstance(g, tuple) else g
+        except Exception as e:  # noqa
+            sh.violation(f"{key}:usual-form:raises-{type(e).__name__}:{fam}", f"{e!r}"[:300], None)
+            continue
+        pseudo = {"model": spec, "grid": {"kind": kind, "refine": 0}}
+        _oracle_1d(sh, pseudo, model, g, f"{kind}:{fam}", refine=0, ref_model=ref_model)
+        usual_grids[kind] = g
+        g = usual()
+        base = light(g)
+        for label, form in forms:
+            got = _forms_compare(sh, f"{key}:{label}:{fam}", f"{kind} grid, {label}", form, base, light)
+            sh.cls(f"form:{label.split(':')[-1] if ':' in label else label}")
+            if isinstance(got, tuple):
+                _holders_untouched(sh, f"{key}:{label}:{fam}", f"{kind} grid, {label}", got[1], got[0])
+    # the base-class constructor keeps the caller's axis arrays (unchanged library: a reference): building chains on the grid
+    # and refining it must not modify them
+    try:
+        from rpylib.grid import spatial as S
+
+        ax = np.array([m * H for m in (-3.0, -1.0, 0.0, 1.0, 2.0, 4.0)])
+        keep_ax = ax.copy()
+        g = S.CTMCGrid(h=H, origin_coordinate=2, axes=[ax])
+        for meth in METHODS_1D:
+            MarkovChainProcess(model=model, method=SamplingMethod[meth], grid=g)
+        g.refine()
+        for meth in METHODS_1D:
+            MarkovChainProcess(model=model, method=SamplingMethod[meth], grid=g)
+        sh.count("evaluations")
+        if not np.array_equal(ax, keep_ax):
+            sh.violation(f"C01:forms:grid-constructor:custom:modifies-the-callers-axis-array:{fam}",
+                         f"axis array handed to CTMCGrid is {ax!r} after chains were built and the grid refined, was {keep_ax!r}", None)
+    except Exception as e:  # noqa
+        sh.violation(f"C01:forms:grid-constructor:custom:raises-{type(e).__name__}:{fam}", f"{e!r}"[:300], None)
+
+    # ---- (2) forms of the arguments of the calls the check (and the library) makes on a chain
+    grid = usual_grids.get("uniform") or usual_grids.get("fixed")
+    if grid is None:
+        return
+    axis = [float(x) for x in grid.axes[0]]
+    o = int(grid.origin_coordinate.value)
+    n = len(axis)
+    idx = [k for k in range(n) if k != o]
+    bounds, _ok = _ref_bounds(axis, o)
+    procs = {}
+    for meth in METHODS_1D:
+        try:
+            procs[meth] = MarkovChainProcess(model=model, method=SamplingMethod[meth], grid=grid)
+        except Exception as e:  # noqa
+            sh.violation(f"C01:chain1d:{meth}:constructor-raises-{type(e).__name__}:uniform:{fam}", f"{e!r}"[:300], None)
+            return
+    lam = float(procs["INVERSION"].intensity_of_jumps)
+    pm = procs["INVERSION"].model
+    f64 = np.float64
+
+    def differs(key, what, usual, others):
+        for label, thunk in others:
+            sh.count("evaluations")
+            try:
+                v = float(thunk())
+            except Exception as e:  # noqa
+                sh.violation(f"{key}:{label}:raises-{type(e).__name__}:{fam}", f"{what}, {label}: {e!r}"[:300], None)
+                continue
+            if not _close_same(v, usual, lam):
+                sh.violation(f"{key}:{label}:differs-from-the-usual-form:{fam}", f"{what}: usual form {usual!r}, {label} {v!r}", None)
+
+    for k in idx:
+        a, b = bounds[k], bounds[k + 1]
+        la, lb, aa, ab = [a], [b], np.array([a]), np.array([b])
+        differs("C01:forms:model.mass", f"mass of the cell of state {k}", float(pm.mass(a, b)), [
+            ("numpy-floats", lambda: pm.mass(f64(a), f64(b))), ("tuples", lambda: pm.mass((a,), (b,))), ("lists", lambda: pm.mass(la, lb)),
+            ("arrays", lambda: pm.mass(aa, ab)), ("keywords", lambda: pm.mass(a=a, b=b)), ("keyword-tuples", lambda: pm.mass(a=(a,), b=(b,)))])
+        sh.count("evaluations")
+        if la != [a] or lb != [b] or aa[0] != a or ab[0] != b:
+            sh.violation(f"C01:forms:model.mass:modifies-the-callers-argument:{fam}", f"cell ({a!r}, {b!r}): {la}, {lb}, {aa}, {ab} after the call", None)
+        fj = getattr(procs["INVERSION"].sampling, "probability_to_jump_to_state", None)
+        if fj is not None:
+            differs("C01:forms:probability_to_jump_to_state", f"state {k}", float(fj(k - o)), [
+                ("numpy-int64", lambda: fj(np.int64(k - o))), ("numpy-int32", lambda: fj(np.int32(k - o))), ("numpy-intp", lambda: fj(np.intp(k - o)))])
+        cp = getattr(procs["BINARYSEARCHTREEADAPTED1D"].sampling, "_compute_probability", None)
+        if cp is not None:
+            # numpy floats first: a cache keyed on the arguments must not depend on their type either
+            v64 = float(cp(f64(a), f64(b)))
+            differs("C01:forms:adapted-tree-1d._compute_probability", f"cell of state {k}", float(pm.mass(a, b)) / lam, [
+                ("numpy-floats", lambda: v64), ("floats", lambda: cp(a, b))])
+    differs("C01:forms:compute_intensity_of_jumps", "intensity", lam, [
+        ("keywords", lambda: SF.compute_intensity_of_jumps(model=pm, grid=grid)), ("positional", lambda: SF.compute_intensity_of_jumps(pm, grid))])
+    try:
+        q1 = np.asarray(SF.create_q_vector(levy_measure=pm.levy_triplet.nu, grid=grid), dtype=float)
+        q2 = np.asarray(SF.create_q_vector(pm.levy_triplet.nu, grid), dtype=float)
+        sh.count("evaluations")
+        if q1.tolist() != q2.tolist():
+            sh.violation(f"C01:forms:create_q_vector:keywords:differs-from-the-usual-form:{fam}", "keyword and positional calls differ", None)
+    except Exception as e:  # noqa
+        sh.violation(f"C01:forms:create_q_vector:keywords:raises-{type(e).__name__}:{fam}", f"{e!r}"[:300], None)
+
+    # ---- (3) copies: copy.copy, copy.deepcopy, dill round trip of the grid, the model and every chain answer like the
+    # original; advancing the (deep / dill) copy - refine() its grid, re-parametrise its model - leaves the original alone
+    base = _light_summary_1d(model, grid)
+    refined = None
+    for cname, cpf in _copiers():
+        sh.cls(f"copies:{cname}")
+        key = f"C01:copies:{cname}"
+        try:
+            g2, m2 = cpf(grid), cpf(model)
+            _compare_summaries(sh, f"{key}:grid:chain-on-the-copy-differs:{fam}", f"{cname} of the grid", _light_summary_1d(model, g2), base)
+            _compare_summaries(sh, f"{key}:model:chain-on-the-copy-differs:{fam}", f"{cname} of the model", _light_summary_1d(m2, grid), base)
+            _compare_summaries(sh, f"{key}:grid+model:chain-on-the-copies-differs:{fam}", f"{cname} of grid and model", _light_summary_1d(m2, g2), base)
+            if cname != "copy":
+                g2.refine()
+                after = _light_summary_1d(m2, g2)
+                if refined is None:
+                    gr = _dill_free_fresh(grid)
+                    refined = _light_summary_1d(model, gr) if gr is not None else after
+                _compare_summaries(sh, f"{key}:grid:refined-copy-differs-from-the-refined-original:{fam}", f"{cname} of the grid, refined", after, refined)
+                _reparametrise_callers_model(m2, spec["family"])
+                _compare_summaries(sh, f"{key}:grid+model:original-changes-when-the-copy-is-advanced:{fam}",
+                                   f"{cname} of grid and model refined / re-parametrised, chain on the originals", _light_summary_1d(model, grid), base)
+            for meth, p in procs.items():
+                pb = _proc_summary_1d(p)
+                p2 = cpf(p)
+                _compare_summaries(sh, f"{key}:chain:{meth}:copy-differs:{fam}", f"{cname} of the {meth} chain", _proc_summary_1d(p2), pb)
+                if cname != "copy":
+                    p2.grid.refine()
+                    p2.model.truncate_levy_measure(truncations=(-1e-3, 1e-3))
+                    _compare_summaries(sh, f"{key}:chain:{meth}:original-changes-when-the-copy-is-advanced:{fam}",
+                                       f"{cname} of the {meth} chain, its grid refined and its model truncated; the original chain", _proc_summary_1d(p), pb)
+        except Exception as e:  # noqa
+            sh.violation(f"{key}:raises-{type(e).__name__}:{fam}", f"{e!r}"[:300], None)
+    _arguments_untouched(sh, "copies-and-argument-forms", f"uniform:{fam}", grid, _grid_snapshot(grid), _fingerprint_1d(model), model_before)
+    sh.nontriv()
+    sh.count("configurations")
+
+
+def _dill_free_fresh(grid):
+    """a grid equal to `grid` refined once, made without the copy modules: the same class re-built from the public attributes
+    through the base-class constructor (refine() only needs middle(), which the probability-step grid overrides: not used for it)"""
+    from rpylib.grid import spatial as S
+
+    if type(grid).middle is not S.CTMCGrid.middle:
+        return None
+    g = S.CTMCGrid(h=grid.h, origin_coordinate=int(list(grid.origin_coordinate)[0]), axes=[np.array(ax, dtype=float) for ax in grid.axes])
+    g.refine()
+    return g
+
+
+def _light_nd(sh, case, model, grid):
+    from rpylib.distribution.sampling import SamplingMethod
+    from rpylib.process.markovchain.markovchainlevycopula import MarkovChainLevyCopula
+
+    ctx = _CopulaCtx(sh, case, model=model, grid=grid, ref_model=model)
+    if not ctx.ok:
+        return None
+    with _no_vol_adjustment_pool():
+        p = MarkovChainLevyCopula(levy_copula_model=model, grid=grid, method=SamplingMethod.INVERSION)
+    return {"axes": [[x.hex() for x in ax] for ax in ctx.axes], "h": float(grid.h).hex(), "origin": list(ctx.orig),
+            "intensity": float(p.intensity_of_jumps), "mass": [float(p.model.mass(*ctx.cell(idx))) for idx in ctx.states()]}
+
+
+def _proc_summary_nd(sh, case, p):
+    ctx = _CopulaCtx(sh, case, model=p.model, grid=p.grid, ref_model=p.model)
+    out = {"axes": [[x.hex() for x in ax] for ax in ctx.axes], "h": float(p.grid.h).hex(), "origin": list(ctx.orig),
+           "intensity": float(p.intensity_of_jumps), "mass": [float(p.model.mass(*ctx.cell(idx))) for idx in ctx.states()]}
+    f = getattr(p.sampling, "probability_to_jump_to_state", None)
+    if f is not None:
+        out["q"] = [float(f(tuple(k - o for k, o in zip(idx, ctx.orig)))) * out["intensity"] for idx in ctx.states()]
+    bp = getattr(p.sampling, "_buckets_probabilities", None)
+    if bp is not None:
+        out["q"] = [float(x) * out["intensity"] for x in bp]
+    return out
+
+
+def _formsnd(sh, case):
+    from rpylib.distribution.sampling import SamplingMethod
+    from rpylib.grid import spatial as S
+    from rpylib.process.markovchain.markovchainlevycopula import MarkovChainLevyCopula
+
+    spec = case["model"]
+    H = case["h"]
+    d = len(spec["margins"])
+    ck = _copula_class(spec)
+    tag = f"d={d}:{ck}"
+    model = _make_copula_model(spec)
+    sh.cls(f"forms:{d}d")
+    model_before = _fingerprint_nd(model)
+    f64, i64 = np.float64, np.int64
+    l, r = S.compute_truncation(model=model, h=H)
+    levels = [float(f * l) for f in [0.5, 0.3, 0.4][:d]]
+    B = (-0.7, 0.4)
+    pseudo = dict(case, exp=False, grid={"kind": "fixed", "refine": 0})
+
+    def light(g):
+        g = g[0] if isinstance(g, tuple) else g
+        return _light_nd(sh, pseudo, model, g)
+
+    def credit(a):
+        g = S.CTMCCredit(h=H, level_a=a, model=model, symmetric_grid=False)
+        return (g, [(a, a.copy())]) if isinstance(a, (list, np.ndarray)) else g
+
+    def gb(t):
+        g = S.CTMCGridGeometric.create_with_bounds(h=H, truncations=t, dimension=d, nb_of_points_on_each_side=2)
+        return (g, [(t, t.copy())]) if isinstance(t, (list, np.ndarray)) else g
+
+    menu = {
+        "fixed": (lambda: S.CTMCUniformGrid.create_from_fixed_nb_of_points(h=H, nb_of_points=3, dimension=d), [
+            ("h:numpy-float", lambda: S.CTMCUniformGrid.create_from_fixed_nb_of_points(h=f64(H), nb_of_points=3, dimension=d)),
+            ("n:numpy-int", lambda: S.CTMCUniformGrid.create_from_fixed_nb_of_points(h=H, nb_of_points=i64(3), dimension=d)),
+            ("n:even", lambda: S.CTMCUniformGrid.create_from_fixed_nb_of_points(h=H, nb_of_points=2, dimension=d)),
+            ("dimension:numpy-int", lambda: S.CTMCUniformGrid.create_from_fixed_nb_of_points(h=H, nb_of_points=3, dimension=i64(d))),
+            ("positional", lambda: S.CTMCUniformGrid.create_from_fixed_nb_of_points(H, 3, d))]),
+        "geometric-bounds": (lambda: gb(B), [("bounds:list", lambda: gb(list(B))), ("bounds:float-array", lambda: gb(np.array(B))),
+                                              ("bounds:numpy-floats", lambda: gb((f64(B[0]), f64(B[1])))),
+                                              ("positional", lambda: S.CTMCGridGeometric.create_with_bounds(H, B, d, 2))]),
+        "uniform": (lambda: S.CTMCUniformGrid(h=0.2, model=model, truncation_probability=0.99999), [
+            ("h:numpy-float", lambda: S.CTMCUniformGrid(h=f64(0.2), model=model, truncation_probability=0.99999)),
+            ("p:default", lambda: S.CTMCUniformGrid(h=0.2, model=model)), ("positional", lambda: S.CTMCUniformGrid(0.2, model, 0.99999))]),
+    }
+    if all(l < a < -H - 1e-12 for a in levels):
+        menu["credit"] = (lambda: credit(list(levels)), [
+            ("levels:tuple", lambda: credit(tuple(levels))), ("levels:array", lambda: credit(np.array(levels))),
+            ("levels:numpy-floats", lambda: credit([f64(a) for a in levels])),
+            ("positional", lambda: S.CTMCCredit(H, list(levels), model, False))])
+    grid = None
+    for kind, (usual, forms) in menu.items():
+        key = f"C01:forms:grid-constructor:{kind}"
+        try:
+            g = usual()
+            holders = g[1] if isinstance(g, tuple) else []
+            g = g[0] if isinstance(g, tuple) else g
+            base = light(g)
+        except Exception as e:  # noqa
+            sh.violation(f"{key}:usual-form:raises-{type(e).__name__}:{tag}", f"{e!r}"[:300], None)
+            continue
+        if holders:
+            _holders_untouched(sh, f"{key}:usual-form:{tag}", f"{kind} grid", holders, g)
+        if kind == "fixed":
+            grid = g
+        for label, form in forms:
+            got = _forms_compare(sh, f"{key}:{label}:{tag}", f"{kind} grid, {label}", form, base, light)
+            sh.cls(f"form:{label.split(':')[-1] if ':' in label else label}")
+            if isinstance(got, tuple):
+                _holders_untouched(sh, f"{key}:{label}:{tag}", f"{kind} grid, {label}", got[1], got[0])
+    if grid is None:
+        return
+    # ---- calls on a chain
+    ctx = _CopulaCtx(sh, pseudo, model=model, grid=grid, ref_model=model)
+    procs = {}
+    with _no_vol_adjustment_pool():
+        for meth in METHODS_ND:
+            try:
+                procs[meth] = MarkovChainLevyCopula(levy_copula_model=model, grid=grid, method=SamplingMethod[meth])
+            except Exception as e:  # noqa
+                sh.violation(f"C01:copula:{meth}:constructor-raises-{type(e).__name__}:fixed:{tag}", f"{e!r}"[:300], None)
+                return
+    lam = float(procs["INVERSION"].intensity_of_jumps)
+    pm = procs["INVERSION"].model
+
+    def differs(key, what, usual, others):
+        for label, thunk in others:
+            sh.count("evaluations")
+            try:
+                v = float(thunk())
+            except Exception as e:  # noqa
+                sh.violation(f"{key}:{label}:raises-{type(e).__name__}:{tag}", f"{what}, {label}: {e!r}"[:300], None)
+                continue
+            if not core.close(v, usual, rtol=1e-12, atol=1e-15 * lam):
+                sh.violation(f"{key}:{label}:differs-from-the-usual-form:{tag}", f"{what}: usual form {usual!r}, {label} {v!r}", None)
+
+    fj = getattr(procs["INVERSION"].sampling, "probability_to_jump_to_state", None)
+    cp = getattr(procs["BINARYSEARCHTREEADAPTED"].sampling, "_compute_probability", None)
+    for idx in ctx.states():
+        a, b = ctx.cell(idx)
+        la, lb, aa, ab = list(a), list(b), np.array(a), np.array(b)
+        differs("C01:forms:model.mass", f"mass of the cell of state {idx}", float(pm.mass(a, b)), [
+            ("lists", lambda: pm.mass(la, lb)), ("arrays", lambda: pm.mass(aa, ab)), ("keywords", lambda: pm.mass(a=a, b=b)),
+            ("numpy-floats", lambda: pm.mass(tuple(f64(x) for x in a), tuple(f64(x) for x in b)))])
+        sh.count("evaluations")
+        if la != list(a) or lb != list(b) or aa.tolist() != list(a) or ab.tolist() != list(b):
+            sh.violation(f"C01:forms:model.mass:modifies-the-callers-argument:{tag}", f"cell {a!r}..{b!r}: {la}, {lb}, {aa}, {ab} after the call", None)
+        inc = tuple(k - o for k, o in zip(idx, ctx.orig))
+        if fj is not None:
+            linc, ainc = list(inc), np.array(inc)
+            differs("C01:forms:probability_to_jump_to_state", f"state {idx}", float(fj(inc)), [
+                ("list", lambda: fj(linc)), ("array", lambda: fj(ainc)), ("numpy-ints", lambda: fj(tuple(np.int64(x) for x in inc)))])
+            sh.count("evaluations")
+            if linc != list(inc) or ainc.tolist() != list(inc):
+                sh.violation(f"C01:forms:probability_to_jump_to_state:modifies-the-callers-argument:{tag}", f"increment {inc}: {linc}, {ainc} after the call", None)
+        if cp is not None:
+            v64 = float(cp(tuple(f64(x) for x in a), tuple(f64(x) for x in b)))
+            differs("C01:forms:adapted-tree._compute_probability", f"cell of state {idx}", float(pm.mass(a, b)) / lam, [
+                ("numpy-floats", lambda: v64), ("floats", lambda: cp(a, b))])
+    # ---- copies
+    base = light(grid)
+    for cname, cpf in _copiers():
+        sh.cls(f"copies:{cname}")
+        key = f"C01:copies:{cname}"
+        try:
+            g2, m2 = cpf(grid), cpf(model)
+            _compare_summaries(sh, f"{key}:grid:chain-on-the-copy-differs:{tag}", f"{cname} of the grid", _light_nd(sh, pseudo, model, g2), base)
+            _compare_summaries(sh, f"{key}:model:chain-on-the-copy-differs:{tag}", f"{cname} of the copula model", _light_nd(sh, pseudo, m2, grid), base)
+            if cname != "copy":
+                g2.refine()
+                _light_nd(sh, pseudo, m2, g2)
+                m2.truncate_levy_measure(truncations=[(-1e-3, 1e-3)] * d)
+                for name, mm in zip(spec["margins"], m2.models):
+                    _reparametrise_callers_model(mm, A.MARGINS[name]["family"])
+                _compare_summaries(sh, f"{key}:grid+model:original-changes-when-the-copy-is-advanced:{tag}",
+                                   f"{cname} of grid and copula model refined / re-parametrised, chain on the originals", light(grid), base)
+            for meth, p in procs.items():
+                pb = _proc_summary_nd(sh, pseudo, p)
+                with _no_vol_adjustment_pool():
+                    p2 = cpf(p)
+                _compare_summaries(sh, f"{key}:chain:{meth}:copy-differs:{tag}", f"{cname} of the {meth} chain", _proc_summary_nd(sh, pseudo, p2), pb)
+                if cname != "copy":
+                    p2.grid.refine()
+                    _compare_summaries(sh, f"{key}:chain:{meth}:original-changes-when-the-copy-is-advanced:{tag}",
+                                       f"{cname} of the {meth} chain, its grid refined; the original chain", _proc_summary_nd(sh, pseudo, p), pb)
+        except Exception as e:  # noqa
+            sh.violation(f"{key}:raises-{type(e).__name__}:{tag}", f"{e!r}"[:300], None)
+    _arguments_untouched(sh, "copies-and-argument-forms", f"fixed:{tag}", grid, _grid_snapshot(grid), _fingerprint_nd(model), model_before)
+    sh.nontriv()
+    sh.count("configurations")
+
+
+# ----------------------------------------------------------------------------------------------------------------------
+# copula chains with more points per axis than can be enumerated: a stated sub-lattice of the states, every bucket
+# ----------------------------------------------------------------------------------------------------------------------
+
+def _copula_large(sh, case):
+    """2-d, fixed grids with 513 and 5001 points per axis (above 255 / above the 10 000-point threshold under which the adapted
+    tree pre-computes the states of the axes). Alphabet: the states whose index on every axis is one of the three first, the
+    three last or within 2 of the origin index (120 non-origin states), and every bucket of the adapted tree. Oracle: rate of
+    a state = reference rectangle mass of its cell (model.mass, inversion where the sampler is built - its constructor
+    enumerates the frontier of the domain: 513 only -, the tree's _compute_probability); bucket probability x lambda =
+    reference mass of the bucket's rectangle; sum of the buckets = intensity of every process = compute_intensity_of_jumps =
+    reference mass of the complement of the central cell."""
+    from rpylib.distribution import samplingfactory as SF
+    from rpylib.distribution.sampling import SamplingMethod
+    from rpylib.process.markovchain.markovchainlevycopula import MarkovChainLevyCopula
+
+    case = dict(case, exp=False)
+    ck = _copula_class(case["model"])
+    npts = case["grid"]["n"]
+    tag = f"fixed:d=2:{ck}:{npts}-points-per-axis"
+    ctx = _CopulaCtx(sh, case)
+    if not ctx.ok or ctx.d != 2:
+        sh.count("malformed-grid-skipped")
+        return
+    sh.cls(f"large:2d:{npts}")
+    grid, model = ctx.grid, ctx.model
+    methods = METHODS_ND if npts <= 1000 else ["BINARYSEARCHTREEADAPTED"]
+    procs = {}
+    with _no_vol_adjustment_pool():
+        for meth in methods:
+            try:
+                procs[meth] = MarkovChainLevyCopula(levy_copula_model=model, grid=grid, method=SamplingMethod[meth])
+            except Exception as e:  # noqa
+                sh.violation(f"C01:copula:{meth}:constructor-raises-{type(e).__name__}:{tag}", f"{e!r}"[:300], None)
+    if not procs:
+        return
+    p0 = next(iter(procs.values()))
+    lam = float(p0.intensity_of_jumps)
+    sh.outcome((lam.hex(), npts))
+    sub = []
+    for ax, o in zip(ctx.axes, ctx.orig):
+        n = len(ax)
+        sub.append(sorted({0, 1, 2, o - 2, o - 1, o, o + 1, o + 2, n - 3, n - 2, n - 1}))
+    states = [idx for idx in itertools.product(*sub) if list(idx) != ctx.orig]
+    ref = {idx: float(O.ref_rectangle_mass(ctx.copula, ctx.nus, *ctx.cell(idx))) for idx in states}
+    S = {idx: ctx.scale(idx) for idx in states}
+    routes = {"model.mass": {idx: float(p0.model.mass(*ctx.cell(idx))) for idx in states}}
+    if "INVERSION" in procs:
+        f = getattr(procs["INVERSION"].sampling, "probability_to_jump_to_state", None)
+        if f is not None:
+            lam_i = float(procs["INVERSION"].intensity_of_jumps)
+            routes["inversion"] = {idx: float(f(tuple(k - o for k, o in zip(idx, ctx.orig)))) * lam_i for idx in states}
+    tree = procs.get("BINARYSEARCHTREEADAPTED")
+    if tree is not None:
+        s = tree.sampling
+        lam_t = float(getattr(s, "intensity_of_jumps", tree.intensity_of_jumps))
+        cp = getattr(s, "_compute_probability", None)
+        if cp is not None:
+            routes["adapted-tree"] = {idx: float(cp(*ctx.cell(idx))) * lam_t for idx in states}
+        bp, bc = getattr(s, "_buckets_probabilities", None), getattr(s, "_buckets_coordinates", None)
+        cum = getattr(s, "_precomputed_cum_p_for_axes", None)
+        if bp is None or bc is None:
+            sh.count("adapted-tree-buckets-not-observable")
+        else:
+            total = 0.0
+            seen = set()
+            for j, (p, coords) in enumerate(zip(bp, bc)):
+                lo = tuple(ctx.bounds[i][int(c[0])] for i, c in enumerate(coords))
+                hi = tuple(ctx.bounds[i][int(c[1]) + 1] for i, c in enumerate(coords))
+                want = float(O.ref_rectangle_mass(ctx.copula, ctx.nus, lo, hi))
+                total += float(p) * lam_t
+                shape = "".join("c" if (c[0] == c[1] == o) else ("l" if c[1] < o else "r") for c, o in zip(coords, ctx.orig))
+                seen.add(shape)
+                sb = max((abs(u) for i, c in enumerate(coords) if not (c[0] == c[1] == ctx.orig[i])
+                          for u in (ctx.U[i][int(c[0])], ctx.U[i][int(c[1]) + 1])), default=0.0)
+                sh.count("evaluations")
+                if not core.close(float(p) * lam_t, want, rtol=1e-9, atol=1e-12 * sb):
+                    sh.violation(f"C01:copula:adapted-tree:bucket-mass-differs-from-reference-mass-of-its-rectangle:{shape}:{tag}",
+                                 f"bucket {coords!r}: probability*lambda = {float(p) * lam_t!r}, reference mass of {lo!r}..{hi!r} = {want!r}",
+                                 {"bucket": coords, "observed": float(p) * lam_t, "expected": want})
+                if cum is not None and j in cum:
+                    ps = np.diff(np.concatenate(([0.0], np.asarray(cum[j], dtype=float))))
+                    axis_nb = next(i for i, c in enumerate(coords) if c[0] != c[1])
+                    if len(ps) != int(coords[axis_nb][1]) - int(coords[axis_nb][0]) + 1:
+                        sh.violation(f"C01:copula:adapted-tree:axis-bucket-has-wrong-number-of-states:{shape}:{tag}",
+                                     f"bucket {coords!r}: {len(ps)} cumulative probabilities", None)
+                    else:
+                        for idx in states:
+                            if all(int(c[0]) <= k <= int(c[1]) for k, c in zip(idx, coords)):
+                                pj = float(ps[idx[axis_nb] - int(coords[axis_nb][0])])
+                                sh.count("evaluations")
+                                if not core.close(pj * lam_t, ref[idx], rtol=1e-9, atol=1e-12 * S[idx] + 4 * EPS * lam):
+                                    sh.violation(f"C01:copula:adapted-tree:axis-state-probability-differs-from-reference-rate:{shape}:{tag}",
+                                                 f"state {idx}: increment of _precomputed_cum_p_for_axes * lambda = {pj * lam_t!r}, reference mass {ref[idx]!r}", None)
+            sh.count("evaluations")
+            if len(seen) != 8 or len(bp) != 8:
+                sh.violation(f"C01:tiling:adapted-tree:buckets-are-not-the-8-blocks-around-the-central-cell:{tag}", f"{len(bp)} buckets of shapes {sorted(seen)}", None)
+            if not core.close(total, lam, rtol=1e-9):
+                sh.violation(f"C01:sum:copula:adapted-tree-buckets:sum-differs-from-intensity:{tag}", f"sum {total!r}, intensity {lam!r}", None)
+    compared = 0
+    for name, r in routes.items():
+        for idx in states:
+            v = r[idx]
+            pos = "on-axis" if any(k == o for k, o in zip(idx, ctx.orig)) else "off-axis"
+            sh.count("evaluations")
+            if not math.isfinite(v) or v < -1e-13 * S[idx]:
+                sh.violation(f"C01:copula:{name}:negative-rate:{pos}:{tag}", f"state {idx}: rate {v!r}", None)
+            want = max(ref[idx], 0.0) if name == "inversion" else ref[idx]
+            compared += 1
+            if not core.close(v, want, rtol=1e-9, atol=1e-12 * S[idx]):
+                sh.violation(f"C01:copula:{name}:rate-differs-from-reference-rectangle-mass:{pos}:{tag}",
+                             f"state {idx} cell {ctx.cell(idx)!r}: rate {v!r}, reference mass {ref[idx]!r}", {"state": idx, "rate": v, "reference": ref[idx]})
+    for meth, p in procs.items():
+        sh.count("evaluations")
+        if not _close_same(float(p.intensity_of_jumps), lam, lam):
+            sh.violation(f"C01:intensity:copula-process:depends-on-the-sampling-method:{tag}", f"{meth}: {float(p.intensity_of_jumps)!r} vs {lam!r}", None)
+    try:
+        lam2 = float(SF.compute_intensity_of_jumps(model=p0.model, grid=grid))
+        sh.count("evaluations")
+        if not _close_same(lam2, lam, lam):
+            sh.violation(f"C01:intensity:compute_intensity_of_jumps:differs-from-process:{tag}", f"{lam2!r} vs {lam!r}", None)
+    except Exception as e:  # noqa
+        sh.violation(f"C01:intensity:compute_intensity_of_jumps:raises-{type(e).__name__}:{tag}", f"{e!r}"[:300], None)
+    # reference intensity: the 8 blocks around the central cell
+    parts = []
+    for i in range(2):
+        bs, o = ctx.bounds[i], ctx.orig[i]
+        parts.append([(bs[o], bs[o + 1]), (bs[0], bs[o]), (bs[o + 1], bs[-1])])
+    blocks = list(itertools.product(*parts))[1:]
+    ref_total = sum(float(O.ref_rectangle_mass(ctx.copula, ctx.nus, tuple(c[0] for c in combo), tuple(c[1] for c in combo))) for combo in blocks)
+    sh.count("evaluations")
+    s_max = max(abs(u) for i in range(2) for u in (ctx.U[i][ctx.orig[i]], ctx.U[i][ctx.orig[i] + 1]))
+    if not core.close(lam, ref_total, rtol=1e-9, atol=1e-12 * s_max):
+        sh.violation(f"C01:intensity:copula-process:differs-from-reference-mass-outside-the-central-cell:{tag}",
+                     f"intensity_of_jumps {lam!r}, reference mass of the 8 blocks {ref_total!r}", None)
+    if compared:
+        sh.nontriv()
+    sh.count("states", len(states))
+    sh.count("configurations")
+
+
+# ----------------------------------------------------------------------------------------------------------------------
 
 REQUIRED_CLASSES = (
     [f"method:1d:{m}" for m in METHODS_1D] + [f"method:{d}d:{m}" for d in (2, 3) for m in METHODS_ND]
@@ -1747,7 +2846,12 @@ REQUIRED_CLASSES = (
        "axes:identical", "axes:different-per-coordinate", "density:same-signs:fixed", "density:opposite-signs:fixed",
        "history:1d:direct", "history:1d:next_level", "history:2d:direct", "history:2d:next_level", "history:3d:direct",
        "history:1d:model-reuse", "history:2d:model-reuse", "history:3d:model-reuse",
-       "route:reinit:copula:d=2", "route:reinit:copula:d=3"]
+       "history:1d:engine-levels", "history:2d:engine-levels", "history:1d:direct:deep", "history:1d:next_level:deep",
+       "route:reinit:copula:d=2", "route:reinit:copula:d=3",
+       "grid:custom", "grid:custom:d=2", "size:one-state-on-one-half-axis", "size:more-than-256-states", "size:more-than-32768-states",
+       "refine:4", "refine:5", "refine:6", "refine:2:d=2", "refine:3:d=2", "large:2d:513", "large:2d:5001",
+       "forms:1d", "forms:2d", "forms:3d", "copies:copy", "copies:deepcopy", "copies:dill",
+       "form:int", "form:numpy-float", "form:numpy-int", "form:positional", "form:list", "form:float-array", "form:int-array"]
     + [f"route:{v}:{f}" for f in ("hem", "merton", "vg", "cgmy") for v in ("reinit", "cycled")]
 )
 
@@ -1766,4 +2870,4 @@ def check_case(sh, case):
         warnings.simplefilter("ignore")
         with np.errstate(all="ignore"):
             {"chain1d": _chain1d, "copula": _copula, "density": _density, "history1d": _history1d,
-             "historynd": _historynd}[case["sub"]](sh, case)
+             "historynd": _historynd, "forms1d": _forms1d, "formsnd": _formsnd, "copula-large": _copula_large}[case["sub"]](sh, case)
